@@ -220,6 +220,23 @@ func (e *Environment) RemoveScope() error {
 	return fmt.Errorf("attempt to RemoveScope when no scopes are present")
 }
 
+// ScopeDepth returns the number of scopes which are currently open.
+//
+// It is used, together with RestoreScopes, to leave a function-call
+// or a whole run with exactly the scopes that were open when it began,
+// however many loops were abandoned early inside it.
+func (e *Environment) ScopeDepth() int {
+	return len(e.local)
+}
+
+// RestoreScopes removes every scope opened since ScopeDepth
+// returned the given depth.
+func (e *Environment) RestoreScopes(depth int) {
+	if depth >= 0 && depth < len(e.local) {
+		e.local = e.local[:depth]
+	}
+}
+
 // SetLocal stores the value of a variable, by name, but only for the local scope.
 func (e *Environment) SetLocal(name string, val object.Object) object.Object {
 
